@@ -208,7 +208,9 @@ func genDisp(r *Rng) Sx {
 					acts = append(acts, a)
 				}
 			}
-			plain = append(plain, L(A(pth), B(r.Bool()), actionsSx(acts)))
+			// 0 Handle, 1 HandleWithFilter, 2 HandleWithFilter of ANOTHER container (same encoding switch) whose one
+			// route runs the script: nested containers must not encode twice
+			plain = append(plain, L(A(pth), []int{0, 1, 1, 2}[r.Intn(4)], actionsSx(acts)))
 			plainPaths = append(plainPaths, pth)
 		}
 	}
@@ -445,7 +447,16 @@ func buildDisp(cfg Sx, env *dispEnv) *restful.Container {
 	})
 	for _, ph := range sxList(sxNth(cfg, 11)) {
 		acts := actionsFromSx(sxNth(ph, 2))
-		h := http.HandlerFunc(func(w http.ResponseWriter, r *http.Request) { runHTTPActions(acts, w) })
+		var h http.Handler = http.HandlerFunc(func(w http.ResponseWriter, r *http.Request) { runHTTPActions(acts, w) })
+		if sxInt(sxNth(ph, 1)) == 2 {
+			inner := restful.NewContainer()
+			inner.EnableContentEncoding(sxBool(sxNth(cfg, 5)))
+			iws := new(restful.WebService)
+			iws.Path(sxStr(sxNth(ph, 0)))
+			iws.Route(iws.GET("").Produces("*/*").Consumes("*/*").To(func(rq *restful.Request, rp *restful.Response) { runHTTPActions(acts, rp) }))
+			inner.Add(iws)
+			h = inner
+		}
 		if sxBool(sxNth(ph, 1)) {
 			c.HandleWithFilter(sxStr(sxNth(ph, 0)), h)
 		} else {
@@ -497,6 +508,8 @@ func buildDisp(cfg Sx, env *dispEnv) *restful.Container {
 				_ = full
 				lg.add("H:" + itoa(rs.ID))
 				lg.add("saw:" + rq.SelectedRoutePath() + " " + strings.Join(ps, ";"))
+				// user code may write into the map it is handed; that must stay within this request (C19)
+				rq.PathParameters()["zz-left-behind"] = itoa(rs.ID)
 				runActions(hs[rs.ID], rq, rp, lg)
 			})
 			ws.Route(b)
